@@ -231,6 +231,30 @@ def run(ctx):
                         "Python 3.4+ writes ',' + newline, so the output text differs between the declared interpreters" % n.func.attr,
                     )
     led.count("json_dump_sites", n_json)
+    # regular expressions: Unicode-dependent matching differs between 2.7 and 3.x
+    n_rx = 0
+    for m, n, pat, flags in PC.regex_calls(ctx):
+        n_rx += 1
+        if not isinstance(pat, str):
+            led.undecided("C20.regex", "pattern of %s at %s is not a constant: its Unicode sensitivity is not decided" % (short(n), m.where(n)))
+            continue
+        reasons = PC.unicode_sensitive(pat, flags) if py2 else []
+        led.check(
+            not reasons,
+            "C20.regex",
+            "%s::%s" % (m.name, short(n)),
+            m.where(n),
+            "the pattern matches differently on the declared interpreters: %s" % "; ".join(reasons),
+        )
+        if any(x in pat for x in ("\\d", "\\w", "\\s", "\\b", "\\D", "\\W", "\\S", "\\B")):
+            led.info(
+                "C20.regex.classes",
+                "%s::%s" % (m.name, short(n)),
+                m.where(n),
+                "class escapes (\\d, \\w, ...) are Unicode-aware on Python 3 and ASCII-only on 2.7; whether the difference can reach a result "
+                "depends on what follows the match and is not decided here",
+            )
+    led.count("regex_sites", n_rx)
     led.ok("C20.names", "API census", "cvss/", "%d call/attribute sites checked against the availability tables" % n_calls)
     # fallbacks present
     inter = ctx.repo.module("interactive")
